@@ -168,7 +168,7 @@ theorem unifiedGo_step (nd : Nat) (h : Heap) (g : Good2 h) (hnd : nd < h.conts.s
   obtain ⟨q', d1, d2⟩ := attachBundle_ok_id h1 nd ub .nil hne u3 h2 hab
   have hqq : q' = q := by rw [c6] at d2; cases d2; rfl
   subst hqq
-  obtain ⟨hA, mp, news, m1, m2, m3, m4, m5, m6, m7, m8⟩ := c08_unifiedBundle_content h b g.good h1 ub hub
+  obtain ⟨hA, mp, news, m1, m2, m3, m4, m5, m6, m7, m8, _⟩ := c08_unifiedBundle_content h b g.good h1 ub hub
   have hr2 : ∀ r, h2.recCell r = h1.recCell r := fun r => by simp [recCell, c9]
   refine ⟨q', ?_, ?_, u2, by rw [c10]; exact u3, hne, ?_, g2, ?_, ?_, by rw [c9], ?_⟩
   · rw [c1, f1.conts nd hnd]
